@@ -215,8 +215,12 @@ Definition v2_msg_ok (local remote : N) (st : cstate) (m : message) : bool :=
      (m_term m =? 0) && (m_logterm m =? 0) && (m_index m =? 0) && (match m_entries m with [] => true | _ => false end) &&
      (m_commit m =? 0) && snap_is_zero (m_snap m) && negb (m_reject m) && (m_rhint m =? 0) && is_none (m_ctx m) &&
      group_eqb (m_fromg m) group0 && group_eqb (m_tog m) group0
-   else if is_continue st m then compact_ok local remote st m
-   else true).
+   else if is_continue st m then
+     compact_ok local remote st m &&
+     (* the decoder's limits (same constant as the plain codec): entry count and entry sizes *)
+     (nlen (m_entries m) <=? read_bytes_limit / 8) &&
+     forallb (fun e => entry_size e <=? read_bytes_limit) (m_entries m)
+   else msg_size m <=? read_bytes_limit).
 
 Fixpoint v2_seq_ok (local remote : N) (st : cstate) (ms : list message) : bool :=
   match ms with
